@@ -280,7 +280,7 @@ pub fn def() -> PropDef {
         subs: vec![
             Sub {
                 name: "documents",
-                cases: |t| t.pick(60_000, 2_000_000),
+                cases: |t| t.pick(300_000, 5_000_000),
                 run,
                 replay: |v| replay_case::<Case>(v, check),
                 min_class: &[("accepted", 0.5), ("accepted+nested-info-key", 0.05), ("accepted+leading-zero-lengths", 0.02), ("non-canonical-info-order", 0.3), ("trailing-values", 0.1)],
